@@ -747,3 +747,525 @@ pub fn owning(rng: &mut Rng) -> Program {
     g.gen_clients(&w, &Shape { clients: (1, 3), ops: (2, 8), final_wait_pct: 70 });
     g.prog
 }
+
+/// family "timers": 0-4 timers of mixed kinds, idle and busy actors, termination at any virtual time by any cause
+pub fn timers(rng: &mut Rng) -> Program {
+    let mut g = G::new(rng);
+    let nclients = g.rng.range(1, 2) as usize;
+    let mut a = ActorDecl::plain(1);
+    a.mailbox = mailbox_kind(g.rng);
+    a.entry = *g.rng.pick(&[Entry::Builder, Entry::Builder, Entry::BuilderOwning, Entry::Spawn]);
+    a.strategy = Strategy::RestartOnly;
+    a.holders = (0..nclients as u16).collect();
+    let nt = g.rng.range(0, 3);
+    a.started = rand_sstep_timers(g.rng, nt);
+    let idle = g.rng.chance(3, 5);
+    if !idle && g.rng.chance(1, 3) {
+        // slow tick handlers, but only with periods that keep the actor below saturation
+        a.tick_work = 1;
+        for s in a.started.iter_mut() {
+            match s {
+                SStep::Interval(d) | SStep::IntervalWith(d) if *d < 5 => *d = 5,
+                _ => {}
+            }
+        }
+    }
+    g.prog.actors.push(a);
+    g.layout(nclients);
+    // client 0: registers further timers at chosen instants, then ends the actor somehow
+    let n_more = g.rng.range(0, 2);
+    for _ in 0..n_more {
+        let d = g.dur();
+        g.prog.clients[0].push(Op::Sleep(d));
+        let p = if g.prog.actors[0].tick_work > 0 { 8 } else { g.dur_pos() };
+        let step = match g.rng.below(4) {
+            0 => PStep::Interval(p),
+            1 => PStep::IntervalWith(p),
+            2 => PStep::DelayedSend(g.dur()),
+            _ => PStep::DelayedExec(g.dur()),
+        };
+        let op = if g.rng.chance(1, 2) { Op::Send { slot: 0, script: vec![step], cancel: None } } else { Op::Call { slot: 0, script: vec![step], cancel: None } };
+        g.prog.clients[0].push(op);
+    }
+    if !idle {
+        let k = g.rng.range(1, 3);
+        for _ in 0..k {
+            let d = g.dur();
+            let w = g.dur();
+            g.prog.clients[0].push(Op::Sleep(d));
+            g.prog.clients[0].push(Op::Send { slot: 0, script: vec![PStep::Sleep(w)], cancel: None });
+        }
+    }
+    let life = g.rng.range(0, 24);
+    g.prog.clients[0].push(Op::Sleep(life));
+    match g.rng.below(6) {
+        0 => g.prog.clients[0].push(Op::Stop { slot: 0 }),
+        1 => g.prog.clients[0].push(Op::DropAll),
+        2 => g.prog.clients[0].push(Op::Send { slot: 0, script: vec![PStep::CtxStop], cancel: None }),
+        3 => g.prog.clients[0].push(Op::Halt { slot: 0 }),
+        4 => {
+            // a panic inside a handler kills the actor while its timers are live
+            g.prog.clients[0].push(Op::Send { slot: 0, script: vec![PStep::Panic], cancel: None });
+        }
+        _ => {} // nobody stops it: last drop at client end
+    }
+    if nclients > 1 {
+        let d = g.rng.range(0, 30);
+        g.prog.clients[1].push(Op::Sleep(d));
+        if g.rng.chance(1, 2) {
+            g.prog.clients[1].push(Op::Downgrade { slot: 0 });
+            g.prog.clients[1].push(Op::Drop { slot: 0 });
+            g.prog.clients[1].push(Op::Sleep(g.rng.range(0, 10)));
+            g.prog.clients[1].push(Op::Upgrade { slot: 2 });
+        }
+    }
+    g.prog
+}
+
+/// family "timeout": timeout t vs per-message work d over the lattice incl. d = t +- 1, successors queued
+pub fn timeout(rng: &mut Rng) -> Program {
+    let mut g = G::new(rng);
+    let nclients = g.rng.range(1, 3) as usize;
+    let mut a = ActorDecl::plain(1);
+    a.mailbox = mailbox_kind(g.rng);
+    a.entry = if g.rng.chance(1, 2) { Entry::BuilderOwning } else { Entry::Builder };
+    a.holders = (0..nclients as u16).collect();
+    a.owner = 0;
+    let no_timeout = g.rng.chance(1, 6);
+    let t = *g.rng.pick(&[1u64, 2, 3, 5, 8]);
+    if !no_timeout {
+        a.timeout = Some(t);
+        a.fail_on_timeout = g.rng.chance(1, 3);
+    }
+    a.strategy = *g.rng.pick(&[Strategy::RestartOnly, Strategy::Recreate, Strategy::NonRestartable]);
+    g.prog.actors.push(a);
+    g.layout(nclients);
+    for c in 0..nclients {
+        let k = g.rng.range(1, 6);
+        for _ in 0..k {
+            let d = if no_timeout {
+                *g.rng.pick(&[0u64, 1, 8, 50, 200, 1000])
+            } else {
+                match g.rng.below(8) {
+                    0 => t - 1,
+                    1 => t + 1,
+                    2 => t,
+                    3 => 0,
+                    4 => t + 5,
+                    _ => g.dur(),
+                }
+            };
+            let script = if g.rng.chance(1, 5) && d >= 2 { vec![PStep::Sleep(d / 2), PStep::Yield, PStep::Sleep(d - d / 2)] } else { vec![PStep::Sleep(d)] };
+            let via_call = g.rng.chance(1, 2);
+            // sometimes through a Sender / Caller
+            if g.rng.chance(1, 6) {
+                g.prog.clients[c].push(if via_call { Op::ToCaller { slot: 0 } } else { Op::ToSender { slot: 0 } });
+                let slot = g.sk[c].len() as u16;
+                g.sk[c].push(SK { hk: if via_call { Hk::Caller } else { Hk::Sender }, a: 0 });
+                g.prog.clients[c].push(if via_call { Op::Call { slot, script, cancel: None } } else { Op::Send { slot, script, cancel: None } });
+            } else {
+                g.prog.clients[c].push(if via_call { Op::Call { slot: 0, script, cancel: None } } else { Op::Send { slot: 0, script, cancel: None } });
+            }
+            if g.rng.chance(1, 5) {
+                g.prog.clients[c].push(Op::Yield);
+            }
+        }
+        if g.rng.chance(1, 3) {
+            g.prog.clients[c].push(Op::Call { slot: 0, script: vec![], cancel: None });
+        }
+    }
+    if g.rng.chance(1, 2) {
+        let slot = (1 + 0) as u16; // owning slot index = nact + 0
+        if g.prog.actors[0].entry.owning() {
+            g.prog.clients[0].push(Op::Stop { slot: 0 });
+            g.prog.clients[0].push(Op::Join { slot, cancel: None });
+        } else {
+            g.prog.clients[0].push(Op::Await { slot: 0, by_ref: g.rng.chance(1, 2) });
+        }
+    }
+    g.prog
+}
+
+/// family "restart": restarts through Addr::restart and Context::restart at any position, timers in started and handlers
+pub fn restart(rng: &mut Rng) -> Program {
+    let mut g = G::new(rng);
+    let nclients = g.rng.range(1, 3) as usize;
+    let mut a = ActorDecl::plain(1);
+    a.mailbox = mailbox_kind(g.rng);
+    a.entry = *g.rng.pick(&[Entry::Builder, Entry::Builder, Entry::BuilderOwning, Entry::Spawn, Entry::SpawnOwning]);
+    a.strategy = *g.rng.pick(&[Strategy::RestartOnly, Strategy::Recreate, Strategy::NonRestartable]);
+    a.holders = (0..nclients as u16).collect();
+    if g.rng.chance(1, 2) {
+        let n = g.rng.range(1, 2);
+        a.started = rand_sstep_timers(g.rng, n);
+    }
+    if g.rng.chance(1, 8) {
+        a.started_err_at = vec![g.rng.range(1, 2) as u32];
+    }
+    if g.rng.chance(1, 6) {
+        a.stopped.push(SStep::Sleep(1));
+    }
+    g.prog.actors.push(a);
+    g.layout(nclients);
+    let mut w = W::zero();
+    w.send = 26;
+    w.call = 26;
+    w.ping = 4;
+    w.restart = 16;
+    w.conv = 8;
+    w.downgrade = 3;
+    w.upgrade = 3;
+    w.stop = 2;
+    w.yield_ = 5;
+    w.sleep = 8;
+    w.fork = 2;
+    w.s_none = 40;
+    w.s_yield = 10;
+    w.s_sleep = 16;
+    w.s_ctx_restart = 10;
+    w.s_interval = 5;
+    w.s_interval_with = 4;
+    w.s_delayed_send = 4;
+    w.s_delayed_exec = 3;
+    g.gen_clients(&w, &Shape { clients: (1, 3), ops: (3, 9), final_wait_pct: 20 });
+    // let time pass after the last restart so that stale timers get their chance to fire
+    let d = g.rng.range(0, 12);
+    g.prog.clients[0].push(Op::Sleep(d));
+    g.prog.clients[0].push(Op::Call { slot: 0, script: vec![], cancel: None });
+    g.prog
+}
+
+/// family "stream": stream-attached actors over all stream entry points and stream shapes
+pub fn stream(rng: &mut Rng) -> Program {
+    use crate::actors::StreamSpec;
+    let mut g = G::new(rng);
+    let nclients = g.rng.range(1, 3) as usize;
+    let mut a = ActorDecl::plain(1);
+    a.entry = *g.rng.pick(&[Entry::OnStream, Entry::OwningOnStream, Entry::BuilderOnStream, Entry::BuilderOnStreamOwning, Entry::BuilderWithStream, Entry::BuilderWithStreamOwning]);
+    a.strategy = Strategy::NonRestartable;
+    a.mailbox = mailbox_kind(g.rng);
+    a.holders = (0..nclients as u16).collect();
+    a.owner = 0;
+    let always = g.rng.chance(1, 8);
+    if always {
+        a.stream = Some(StreamSpec { bursts: vec![], repeat: false, ends: false, always_ready: true });
+        a.aux_yield = true;
+    } else {
+        a.stream = Some(rand_stream(g.rng));
+        a.aux_work = if g.rng.chance(1, 3) { *g.rng.pick(&LATTICE[..4]) } else { 0 };
+        a.aux_yield = g.rng.chance(1, 4);
+    }
+    if g.rng.chance(1, 5) {
+        a.started = vec![SStep::Yield];
+    }
+    g.prog.actors.push(a);
+    g.layout(nclients);
+    let mut w = W::zero();
+    w.send = 30;
+    w.call = 24;
+    w.ping = 6;
+    w.conv = 8;
+    w.stop = 8;
+    w.halt = 4;
+    w.consume = 3;
+    w.drop = 8;
+    w.drop_all = 3;
+    w.await_ = 4;
+    w.join = 3;
+    w.yield_ = 10;
+    w.sleep = 10;
+    w.downgrade = 3;
+    w.upgrade = 3;
+    w.s_none = 40;
+    w.s_yield = 20;
+    w.s_sleep = 20;
+    w.s_ctx_stop = 4;
+    if always {
+        // an always-ready stream keeps the executor busy: the virtual clock never advances, so nothing
+        // in these programs sleeps, and client 0 stops the actor explicitly
+        w.sleep = 0;
+        w.s_sleep = 0;
+        w.await_ = 0;
+        w.join = 0;
+        w.halt = 0;
+        w.consume = 0;
+        g.gen_clients(&w, &Shape { clients: (1, 3), ops: (1, 5), final_wait_pct: 0 });
+        for _ in 0..g.rng.range(0, 6) {
+            g.prog.clients[0].push(Op::Yield);
+        }
+        g.prog.clients[0].push(Op::Call { slot: 0, script: vec![], cancel: None });
+        g.prog.clients[0].push(Op::Stop { slot: 0 });
+        g.prog.clients[0].push(Op::Await { slot: 0, by_ref: true });
+    } else {
+        g.gen_clients(&w, &Shape { clients: (1, 3), ops: (2, 8), final_wait_pct: 50 });
+    }
+    g.prog
+}
+
+fn svc_default(k: u8, rng: &mut Rng) -> ActorDecl {
+    let mut d = ActorDecl::plain(9000 + k as u32);
+    d.k = k;
+    d.entry = Entry::Spawn;
+    if rng.chance(1, 5) {
+        d.started = vec![SStep::Yield];
+    }
+    d
+}
+
+/// family "liveness": termination cause x await history, then stopped()/running() queries and registry reactions
+pub fn liveness(rng: &mut Rng) -> Program {
+    let mut g = G::new(rng);
+    let service = g.rng.chance(2, 5);
+    if service {
+        // service of type k, spawned on demand, terminated without anybody awaiting it, then looked up again
+        let k = g.rng.range(1, 2) as u8;
+        let d1 = svc_default(1, g.rng);
+        let d2 = svc_default(2, g.rng);
+        g.prog.defaults = vec![d1, d2];
+        // a fresh instance that a client may register later
+        let mut fresh = ActorDecl::plain(50);
+        fresh.k = k;
+        fresh.entry = Entry::Spawn;
+        fresh.at_setup = false;
+        g.prog.actors.push(fresh);
+        g.layout(1);
+        let base = g.sk[0].len() as u16; // 2 slots (addr, owning) of decl 0, both empty
+        let c = &mut g.prog.clients[0];
+        c.push(Op::FromRegistry { k }); // slot base
+        c.push(Op::Call { slot: base, script: vec![], cancel: None });
+        let mut extra = 0u16;
+        if g.rng.chance(1, 2) {
+            // while the instance is alive try_from_registry hands it out
+            c.push(Op::TryFromRegistry { k }); // slot base+1
+            c.push(Op::Call { slot: base + 1, script: vec![], cancel: None });
+            c.push(Op::Drop { slot: base + 1 });
+            extra = 1;
+        }
+        let cause = g.rng.below(4);
+        match cause {
+            0 => c.push(Op::Stop { slot: base }),
+            1 => c.push(Op::Send { slot: base, script: vec![PStep::CtxStop], cancel: None }),
+            2 => c.push(Op::Send { slot: base, script: vec![PStep::Panic], cancel: None }),
+            _ => c.push(Op::Call { slot: base, script: vec![PStep::Panic], cancel: None }),
+        }
+        let hist = g.rng.below(4);
+        if hist == 1 {
+            c.push(Op::Clone { slot: base }); // base+1+extra
+            c.push(Op::Await { slot: base + 1 + extra, by_ref: false });
+        }
+        c.push(Op::Sleep(1));
+        let mut next = base + extra + if hist == 1 { 2 } else { 1 };
+        if g.rng.chance(1, 2) {
+            c.push(Op::Query { slot: base, running: g.rng.chance(1, 2) });
+        }
+        match g.rng.below(4) {
+            0 | 1 => {
+                c.push(Op::FromRegistry { k });
+                c.push(Op::Call { slot: next, script: vec![], cancel: None });
+                next += 1;
+            }
+            2 => {
+                c.push(Op::TryFromRegistry { k });
+                c.push(Op::Call { slot: next, script: vec![], cancel: None });
+                next += 1;
+            }
+            _ => {
+                c.push(Op::SpawnActor { decl: 0 }); // slot next
+                c.push(Op::Register { slot: next }); // pushes one more slot (prev)
+                c.push(Op::Call { slot: next, script: vec![], cancel: None });
+                next += 2;
+            }
+        }
+        let _ = next;
+        c.push(Op::AlreadyRunning { k });
+        return g.prog;
+    }
+    let nclients = 2usize;
+    let mut a = ActorDecl::plain(1);
+    a.mailbox = mailbox_kind(g.rng);
+    a.entry = *g.rng.pick(&[Entry::Builder, Entry::Spawn, Entry::BuilderOwning]);
+    a.holders = vec![0, 1];
+    a.owner = 0;
+    let cause = g.rng.below(7);
+    if cause == 4 {
+        a.started_err_at = vec![0];
+    }
+    if cause == 5 {
+        a.timeout = Some(2);
+        a.fail_on_timeout = true;
+        a.entry = Entry::Builder;
+    }
+    g.prog.actors.push(a);
+    g.layout(nclients);
+    if cause == 6 {
+        g.prog.cancel = Some((0, g.rng.range(1, 3) as u32));
+    }
+    // client 1: the await history
+    let hist = g.rng.below(4); // 0 never, 1 clone awaited before, 2 clone awaited after, 3 self (&mut) awaited
+    // client 0: queries before, the cause, a pause, queries after on Addr / clone / WeakAddr
+    let nslots = g.sk[0].len() as u16; // 2
+    let c0 = &mut g.prog.clients[0];
+    c0.push(Op::Clone { slot: 0 }); // nslots
+    c0.push(Op::Downgrade { slot: 0 }); // nslots+1
+    if cause != 4 {
+        c0.push(Op::Query { slot: 0, running: false });
+        c0.push(Op::Query { slot: nslots + 1, running: false });
+        c0.push(Op::Call { slot: 0, script: vec![], cancel: None });
+        c0.push(Op::Query { slot: nslots, running: true });
+    }
+    match cause {
+        0 => c0.push(Op::Stop { slot: 0 }),
+        1 => c0.push(Op::Send { slot: 0, script: vec![PStep::CtxStop], cancel: None }),
+        2 => c0.push(Op::Send { slot: 0, script: vec![PStep::Panic], cancel: None }),
+        3 => c0.push(Op::Stop { slot: nslots + 1 }),
+        5 => c0.push(Op::Send { slot: 0, script: vec![PStep::Sleep(5)], cancel: None }),
+        _ => {}
+    }
+    if hist == 3 {
+        c0.push(Op::Await { slot: 0, by_ref: true });
+    } else {
+        c0.push(Op::Sleep(g.rng.range(1, 8)));
+    }
+    for _ in 0..g.rng.range(1, 3) {
+        let slot = *g.rng.pick(&[0, nslots, nslots + 1]);
+        let running = slot != nslots + 1 && g.rng.chance(1, 2);
+        c0.push(Op::Query { slot, running });
+    }
+    if g.rng.chance(1, 3) {
+        // a clone made after termination is queried too
+        c0.push(Op::Clone { slot: nslots });
+        c0.push(Op::Query { slot: nslots + 2, running: false });
+    }
+    let c1 = &mut g.prog.clients[1];
+    match hist {
+        1 => c1.push(Op::Await { slot: 0, by_ref: false }),
+        2 => {
+            c1.push(Op::Sleep(9));
+            c1.push(Op::Await { slot: 0, by_ref: false });
+        }
+        _ => {
+            c1.push(Op::Sleep(12));
+            c1.push(Op::Query { slot: 0, running: true });
+        }
+    }
+    g.prog
+}
+
+/// family "kinds": leave every non-empty subset of strong kinds alive, then self-stop / self-restart / timers / upgrades
+pub fn kinds(rng: &mut Rng) -> Program {
+    let mut g = G::new(rng);
+    let two = g.rng.chance(1, 3);
+    for t in 0..if two { 2 } else { 1 } {
+        let mut a = ActorDecl::plain(1 + t);
+        a.mailbox = mailbox_kind(g.rng);
+        a.entry = if g.rng.chance(1, 2) { Entry::BuilderOwning } else { Entry::Builder };
+        a.strategy = *g.rng.pick(&[Strategy::RestartOnly, Strategy::RestartOnly, Strategy::Recreate]);
+        a.holders = vec![0];
+        a.owner = 0;
+        if g.rng.chance(2, 3) {
+            let p = g.dur_pos();
+            a.started = vec![g.rng.pick(&[SStep::Interval(p), SStep::IntervalWith(p), SStep::DelayedSend(p + 3)]).clone()];
+        }
+        g.prog.actors.push(a);
+    }
+    g.layout(1);
+    let nact = g.prog.actors.len();
+    for ai in 0..nact {
+        let addr = ai as u16;
+        let own = (nact + ai) as u16;
+        let owning = g.prog.actors[ai].entry.owning();
+        // make one handle of every kind; remember the slots
+        let base = g.sk[0].len() as u16;
+        let c = &mut g.prog.clients[0];
+        c.push(Op::ToSender { slot: addr }); // base
+        c.push(Op::ToCaller { slot: addr }); // base+1
+        c.push(Op::Downgrade { slot: addr }); // base+2 WeakAddr
+        c.push(Op::ToWeakSender { slot: addr }); // base+3
+        c.push(Op::ToWeakCaller { slot: addr }); // base+4
+        c.push(Op::Downgrade { slot: base }); // base+5 WeakSender from Sender
+        c.push(Op::Downgrade { slot: base + 1 }); // base+6 WeakCaller from Caller
+        for k in [Hk::Sender, Hk::Caller, Hk::Weak, Hk::WeakSender, Hk::WeakCaller, Hk::WeakSender, Hk::WeakCaller] {
+            g.sk[0].push(SK { hk: k, a: ai });
+        }
+        // choose the non-empty subset of strong kinds to keep: bit0 Addr, bit1 Owning, bit2 Sender, bit3 Caller
+        let mut mask = g.rng.range(1, 15);
+        if !owning {
+            mask &= !2;
+            if mask == 0 {
+                mask = g.rng.range(1, 7) << 0 & 0b1101;
+                if mask == 0 {
+                    mask = 8;
+                }
+            }
+        }
+        let c = &mut g.prog.clients[0];
+        c.push(Op::Sleep(g.rng.range(0, 3)));
+        if mask & 1 == 0 {
+            c.push(Op::Drop { slot: addr });
+        }
+        if mask & 2 == 0 && owning {
+            // detach yields an Addr: drop that too
+            if g.rng.chance(1, 2) {
+                c.push(Op::Drop { slot: own });
+            } else {
+                c.push(Op::Detach { slot: own });
+                let s = g.sk[0].len() as u16;
+                g.sk[0].push(SK { hk: Hk::Addr, a: ai });
+                c.push(Op::Drop { slot: s });
+            }
+        }
+        if mask & 4 == 0 {
+            c.push(Op::Drop { slot: base });
+        }
+        if mask & 8 == 0 {
+            c.push(Op::Drop { slot: base + 1 });
+        }
+        // let timers run for a while with the reduced set
+        c.push(Op::Sleep(g.rng.range(0, 12)));
+        // probes: upgrade every weak handle
+        for wslot in [base + 2, base + 3, base + 4, base + 5, base + 6] {
+            if g.rng.chance(2, 3) {
+                c.push(Op::Upgrade { slot: wslot });
+                g.sk[0].push(SK { hk: Hk::None, a: ai });
+                let s = (g.sk[0].len() - 1) as u16;
+                c.push(Op::Drop { slot: s });
+            }
+        }
+        // act through a surviving handle: plain message, self-restart, timers, finally self-stop
+        let via: Vec<(u16, bool)> = [(addr, mask & 1 != 0, true), (own, mask & 2 != 0 && owning, true), (base, mask & 4 != 0, false), (base + 1, mask & 8 != 0, true)]
+            .iter()
+            .filter(|x| x.1)
+            .map(|x| (x.0, x.2))
+            .collect();
+        let pickv = |g: &mut G, call_ok: bool| -> (u16, bool) {
+            let v: Vec<&(u16, bool)> = via.iter().filter(|x| !call_ok || true).collect();
+            **g.rng.pick(&v)
+        };
+        let steps: Vec<PStep> = {
+            let mut v = vec![PStep::Yield];
+            if g.rng.chance(1, 2) {
+                v.push(PStep::CtxRestart);
+            }
+            if g.rng.chance(1, 2) {
+                let p = g.dur_pos();
+                v.push(PStep::Interval(p));
+            }
+            v
+        };
+        for st in steps {
+            let (slot, is_call) = pickv(&mut g, false);
+            let hk = g.sk[0][slot as usize].hk;
+            let op = if hk == Hk::Caller || (is_call && hk != Hk::Sender && g.rng.chance(1, 2)) { Op::Call { slot, script: vec![st], cancel: None } } else { Op::Send { slot, script: vec![st], cancel: None } };
+            g.prog.clients[0].push(op);
+            g.prog.clients[0].push(Op::Sleep(g.rng.range(0, 4)));
+        }
+        if g.rng.chance(2, 3) {
+            let (slot, _) = pickv(&mut g, false);
+            let hk = g.sk[0][slot as usize].hk;
+            let op = if hk == Hk::Caller { Op::Call { slot, script: vec![PStep::CtxStop], cancel: None } } else { Op::Send { slot, script: vec![PStep::CtxStop], cancel: None } };
+            g.prog.clients[0].push(op);
+        }
+    }
+    g.prog.clients[0].push(Op::Sleep(2));
+    g.prog
+}
